@@ -141,8 +141,8 @@ TEXT["C16"] = dict(
           "end) and keep the prescribed population size is a whole-run property of 21 compositions of dyn components: it is covered "
           "ONLY by bounded native runs (19 templates x (3 seeds x 15 + 30 seeds x {1,2,3,6} iterations); 36 parameter sets at the edges "
           "of what the constructors accept; the stack height recorded at every loop test through a probe wrapped around the "
-          "termination condition). It fails for the two ILS templates (one more population on the stack per pass) and for real_iwo, whose constructor "
-          "rejects the deviation parameters it documents as valid; both are recorded as known findings."),
+          "termination condition). It fails for the two ILS templates (one more population on the stack per pass), recorded as a "
+          "known finding."),
     note=("Level 'other'. Planned as not applicable (no function-level contract decides a whole run); the iteration-count clause turned "
           "out to be exactly the loop lemma already proved for C03/C10. Not covered: the two ACO templates, other instances / parameter sets than the "
           "ones run."),
